@@ -1,17 +1,86 @@
 import Juniper.Proofs.Cond
+import Juniper.Proofs.CondFine
+import Juniper.Proofs.CondCount
+import Juniper.Proofs.CondCancel
 /-!
 # C16 — xsync.ContextCond never loses a wakeup (property theorems)
 
-All theorems are about `step Cfg.gen`, the LTS of `Model/Cond.lean` instantiated with the
-configuration regenerated from `xsync/xsync.go` on every run (select arms of `Signal` and `Wait`,
-channel capacities, which arm re-locks, statement order of `Wait` and `Broadcast`); the first step
-of every proof is `Cfg.gen = Cfg.std` by `decide`. One waiter index = one call of `Wait`.
+Two LTSs, both instantiated with the configuration regenerated from `xsync/xsync.go` on every run
+(`Cfg.gen`: select arms of `Signal` and `Wait`, channel capacities, which arm re-locks, the *ordered*
+statement lists of `Wait`, `Signal` and `Broadcast`, lock operations included); the first step of every
+proof is `Cfg.gen = Cfg.std` by `decide` (`cfg_gen`):
 
-`signal_wakes_min` is false of the code (defect D13, open known finding): see
-`signal_wakes_min_false` and `signal_wakes_min_partial`.
+* the atomic LTS `step` (`Model/Cond.lean`): one label per `Signal` / `Broadcast` call, one label per step
+  of a waiter. The wake-up clauses are stated here. One waiter index = one call of `Wait`.
+* the fine-grained LTS `fstep` (`Model/CondFine.lean`): `Signal` and `Broadcast` run statement by statement,
+  interpreting the regenerated lists, with the internal `sync.RWMutex` as explicit state; a send on / close
+  of a closed channel is the outcome `panicked`. `signal_broadcast_never_panic` and
+  `lock_discipline_makes_calls_atomic` are stated here; the second one is what entitles the atomic LTS to
+  its two whole-call labels.
+
+`signal_wakes_min` is false of the code in two ways (defect family D13, open known findings):
+`signal_wakes_min_false` (two waiters between `Unlock` and the `select`, two Signals) and
+`signal_wakes_min_late_entrant_false` (one such waiter, one Signal, a waiter that enters afterwards takes the
+remembered token); what holds is `signal_wakes_min_no_entrant_partial` (expiries at any moment included).
 -/
 namespace Juniper.Props.C16
-open Juniper.Model.Cond Juniper.Proofs.Cond
+open Juniper.Model.Cond Juniper.Proofs.Cond Juniper.Proofs.CondFine
+
+/-! ## `Signal` ∥ `Broadcast`: the lock discipline of `c.m` -/
+
+/-- **Overlapping `Signal` and `Broadcast` calls never panic.** In the fine-grained LTS — any number of
+`Signal` and `Broadcast` calls in progress at once, each between any two of its statements, interleaved with
+every step of every waiter — no reachable state has panicked: no `Signal` sends on a channel that a
+`Broadcast` has closed (a `Signal` that has evaluated `c.ch` holds `c.m` for reading, and the channel is
+closed only while a writer is between its `close` and its installation of the fresh channel), no channel is
+closed twice, no `Unlock` / `RUnlock` hits a mutex the call does not hold. Every step that is taken from a
+reachable state therefore leads to a state that has not panicked either.
+
+This is a theorem about the *ordered statement lists* of the source: with `Broadcast` rewritten as
+`Lock; close; Unlock; Lock; install; Unlock`, or with `close` outside the lock, `Cfg.gen ≠ Cfg.std`
+(`cfg_gen` fails) and the LTS reaches `panicked` (`driver cond`, command `cex`; real-threads phase of the
+harness: `send on closed channel`). -/
+theorem signal_broadcast_never_panic {fs : FState} (hr : FReach Cfg.gen fs) :
+    fs.panicked = false ∧ ∀ (l : FLabel) (fs' : FState), fstep Cfg.gen fs l = some fs' → fs'.panicked = false := by
+  rw [cfg_gen] at *
+  exact ⟨(finv_reach hr).alive, fun l fs' h => (finv_reach (.step l hr h)).alive⟩
+
+/-- non-vacuity: a waiter has entered, a `Signal` call and a `Broadcast` call are in progress, the
+`Broadcast` holds `c.m` and has closed the channel (the waiter has already been woken by the close); in
+that state the `Signal` cannot pass `c.m.RLock()` and a new `Wait` cannot take its snapshot -/
+example : ∃ fs, FReach Cfg.gen fs ∧ fs.calls.length = 2 ∧ fs.writer = true ∧
+    (chanAt fs.base fs.base.cur).closed = true ∧ pcOf fs.base 0 = some (.woken false) ∧
+    fstep Cfg.gen fs (.callStep 0 none) = none ∧ fstep Cfg.gen fs (.env (.start 1)) = none ∧
+    (fstep Cfg.gen fs (.callStep 1 none)).isSome = true :=
+  ⟨_, freach_frun (ls := [.env (.start 0), .env (.release 0), .env (.arrive 0 .park), .call true, .call false,
+      .callStep 1 none, .callStep 1 none]) (.init 2) rfl, by decide⟩
+
+/-- **The lock discipline makes `Signal` and `Broadcast` atomic.** Every reachable state of the fine-grained
+LTS stands for (`absOf`) a reachable state of the atomic LTS: a `Signal` call takes effect at its send (on
+the channel that is current at that moment: it holds `c.m` for reading from before it evaluates `c.ch`),
+a `Broadcast` call at its `close`; between the `close` and the installation of the fresh channel the
+`Broadcast` holds `c.m` for writing, nobody holds it for reading, no `Signal` is past its `RLock` and no new
+`Wait` takes a snapshot, and whatever the waiters do in that window (release, reach the `select`, expire,
+re-lock) commutes with the installation (`Proofs.CondFine.step_inst`). Hence every invariant of the atomic
+LTS — all theorems below — holds of the real interleavings too. -/
+theorem lock_discipline_makes_calls_atomic {fs : FState} (hr : FReach Cfg.gen fs) :
+    Reach Cfg.gen (absOf Cfg.gen fs) ∧
+    ((chanAt fs.base fs.base.cur).closed = false → absOf Cfg.gen fs = fs.base) ∧
+    ((chanAt fs.base fs.base.cur).closed = true → fs.writer = true ∧ fs.readers = 0) ∧
+    (∀ (k : Nat) (c : CallT), fs.calls[k]? = some c → c.holdsR = true →
+        fs.writer = false ∧ (chanAt fs.base fs.base.cur).closed = false ∧ (c.snap = none ∨ c.snap = some fs.base.cur)) := by
+  rw [cfg_gen] at *
+  have hi := finv_reach hr
+  refine ⟨hi.abs, ?_, fun h => mid_writer hi h, ?_⟩
+  · intro h; simp [absOf, h]
+  · intro k c hk hR
+    obtain ⟨h1, h2, _⟩ := reader_no_writer hi hk hR
+    refine ⟨h1, h2, ?_⟩
+    have hok := hi.callsOk k c hk
+    unfold CallOk at hok
+    split at hok <;> simp_all
+
+/-! ## the wake-up clauses (atomic LTS) -/
 
 /-- waiter `i` has released the lock and has not been woken yet -/
 def Entered (s : State) (i : Nat) : Prop :=
@@ -48,6 +117,13 @@ theorem broadcast_wakes_all_entered {s s1 s2 : State} {ls : List Label} {i : Nat
 example : ∃ s i, Reach Cfg.gen s ∧ Entered s i ∧ (step Cfg.gen s .broadcast).isSome :=
   ⟨_, 0, .step (.arrive 0 .park) (.step (.release 0) (.step (.start 0) (.init 2) rfl) rfl) rfl, ⟨_, rfl, Or.inr ⟨0, rfl⟩⟩, by decide⟩
 
+/-- the window the property is about: the waiter is between `c.L.Unlock()` and the `select` when `Broadcast`
+runs; afterwards it cannot park and the `<-ch` arm is ready -/
+example : ∃ s s1, Reach Cfg.gen s ∧ Entered s 0 ∧ pcOf s 0 = some (.unlocked (some 0)) ∧
+    step Cfg.gen s .broadcast = some s1 ∧ step Cfg.gen s1 (.arrive 0 .park) = none ∧
+    (step Cfg.gen s1 (.arrive 0 .recv)).isSome = true :=
+  ⟨_, _, .step (.release 0) (.step (.start 0) (.init 1) rfl) rfl, ⟨_, rfl, Or.inl ⟨_, rfl⟩⟩, rfl, rfl, by decide, by decide⟩
+
 /-- **A `Wait` that returns nil holds the lock again**: the step by which waiter `i` returns nil
 leaves `i` as the holder of the caller's lock. -/
 theorem wait_nil_holds_lock {s s' : State} {l : Label} {i : Nat} {w w' : Waiter}
@@ -79,9 +155,12 @@ theorem wait_err_no_lock {s s' : State} {l : Label} {i : Nat} {w' : Waiter}
   unfold WInv at hi
   simpa [h1] using hi
 
-/-- **… promptly**: a parked waiter's context has not ended (when it ends, the same step moves the
-waiter out of the `select`: `cancel` is atomic with the return), and a waiter that reaches the
-`select` with an ended context cannot park. -/
+/-- **… promptly**: a waiter that reaches the `select` with an ended context cannot park (derived:
+`arrive i .park` is disabled), and no parked waiter has an ended context. The second half is a *modelling
+assumption checked by conformance*, not a derived result: the LTS lets the `cancel` label itself move a parked
+waiter out of the `select` (`cancelPc` — the Go runtime: closing `Done()` readies every `select` parked on it),
+which makes "parked with an ended context" unreachable by construction; the harness observes exactly this
+(`P → E` at the `cancel` step, monitor `wait-err-not-prompt`). -/
 theorem wait_err_prompt {s : State} {i : Nat} {w : Waiter} (hr : Reach Cfg.gen s) (hw : s.ws[i]? = some w)
     (hc : w.cancelled = true) :
     (∀ c, w.pc ≠ .parked c) ∧ step Cfg.gen s (.arrive i .park) = none := by
@@ -92,6 +171,15 @@ theorem wait_err_prompt {s : State} {i : Nat} {w : Waiter} (hr : Reach Cfg.gen s
     unfold WInv at hi
     simp [hp, hc] at hi
   · cases hp : w.pc <;> simp [step, hw, hp, Cfg.std, hc]
+
+/-- both select arms ready: a waiter that has released the lock, whose context has ended and for which a token
+is remembered; returning the error is enabled (`wait_err_no_lock`, `ctx_expiry_keeps_token` apply to that step)
+and parking is not (`wait_err_prompt`) -/
+example : ∃ s s' w', run Cfg.gen (init Cfg.gen 1) [.start 0, .release 0, .signal none, .cancel 0] = some s ∧
+    step Cfg.gen s (.arrive 0 .ctx) = some s' ∧ s'.ws[0]? = some w' ∧ w'.pc = .doneErr ∧ w'.cancelled = true ∧
+    s'.chans = s.chans ∧ (chanAt s' s'.cur).buf = 1 ∧ step Cfg.gen s (.arrive 0 .park) = none ∧
+    (step Cfg.gen s (.arrive 0 .recv)).isSome = true :=
+  ⟨_, _, _, rfl, rfl, rfl, rfl, rfl, rfl, by decide, by decide, by decide⟩
 
 /-- **… without swallowing a wakeup that another waiter needs**: the step by which waiter `i`
 returns the context's error leaves every channel (tokens included), the current-channel pointer
@@ -112,19 +200,22 @@ theorem ctx_expiry_keeps_token {s s' : State} {l : Label} {i : Nat} {w w' : Wait
   | expire c hc hcur hf => exact ⟨hc, hcur, hf⟩
   | relockErr hc hcur hf => exact ⟨hc, hcur, hf⟩
 
-/-- `signal_wakes_min` at full strength: **once k goroutines have entered `Wait` (released the
-lock), m `Signal` calls wake at least min(k, m) of them, however far each waiter has progressed
-inside `Wait`.** From a reachable state `s` with `k = nUnparked s + nParked s` entered waiters
-(none with an ended context), run any sequence `ls` of `Signal`s and of the waiters' own progress
-(reaching the `select`, re-locking; the holder of the lock unlocking) until every waiter has reached
-the `select`; then at least `min k m` more waiters are woken than before (`m = nSignals ls`; only the
-`k` entered waiters can be newly woken in such a run). -/
+/-- `signal_wakes_min` **as the property text has it**: *once k goroutines have entered `Wait` (released
+the lock), m `Signal` calls wake at least min(k, m) **of them**, however far each waiter has progressed inside
+`Wait`*; quantifier: all interleavings of Signal with each waiter's progress (before the lock release, between
+the release and parking, parked) and all timings of context cancellation.
+
+From a reachable state `s` with `k = nUnparked s + nParked s` entered waiters, run **any** sequence `ls` of
+labels other than `broadcast` — Signals, progress of the entered waiters, *other waiters calling `Wait` and
+releasing the lock while the Signals happen*, contexts ending at any moment, locks being handed on — until
+every waiter that has entered has reached the `select` (`nUnparked s' = 0`). Then, of the `k` waiters that had
+entered in `s`, at least `min (k − e) m` are woken (`nWokenOfThem s s'`: attributed by index), where
+`m = nSignals ls` and `e = nErrOfThem s s'` of them have returned their context's error instead (a `Wait` whose
+context expires leaves; it must not take a wake-up with it). -/
 def SignalWakesMin (cfg : Cfg) : Prop :=
   ∀ (s s' : State) (ls : List Label), Reach cfg s → run cfg s ls = some s' →
-    (∀ l ∈ ls, progressOnly l = true) →
-    (∀ (i : Nat) (w : Waiter), s.ws[i]? = some w → (isUnparked w || isParked w) = true → w.cancelled = false) →
-    nUnparked s' = 0 →
-    min (nUnparked s + nParked s) (nSignals ls) ≤ nWoken s' - nWoken s
+    (∀ l ∈ ls, l ≠ .broadcast) → nUnparked s' = 0 →
+    min (nUnparked s + nParked s - nErrOfThem s s') (nSignals ls) ≤ nWokenOfThem s s'
 
 /-- D13, the state before the Signals: two waiters have released the lock and are not yet parked -/
 def d13Start : State :=
@@ -136,36 +227,89 @@ def d13End : State :=
   { chans := [{ cap := 1, buf := 0, closed := false }], cur := 0, lock := some 0,
     ws := [{ pc := .doneNil, cancelled := false }, { pc := .parked 0, cancelled := false }] }
 
-/-- **The full statement is false of the code** (defect D13, open known finding): two waiters
-between `c.L.Unlock()` and the `select`, two `Signal`s — the one-slot buffer keeps one token, the
-second `Signal` is dropped by the `default` arm, one waiter takes the token and the other parks:
-k = 2, m = 2, one wake-up. Checked by evaluation of the model (`decide`). -/
+/-- **The clause is false of the code, first way** (defect D13, open known finding): two waiters between
+`c.L.Unlock()` and the `select`, two `Signal`s — the one-slot buffer keeps one token, the second `Signal`
+is dropped by the `default` arm, one waiter takes the token and the other parks: k = 2, m = 2, no
+cancellation, no other waiter, one wake-up. Checked by evaluation of the model (`decide`). -/
 theorem signal_wakes_min_false : ¬ SignalWakesMin Cfg.gen := by
   intro h
   have hreach : Reach Cfg.gen d13Start :=
     reach_run (ls := [.start 0, .release 0, .start 1, .release 1]) (.init 2) (by decide)
   have hrun : run Cfg.gen d13Start [.signal none, .signal none, .arrive 0 .recv, .relock 0, .arrive 1 .park] = some d13End := by
     decide
-  have hnc : ∀ (i : Nat) (w : Waiter), d13Start.ws[i]? = some w → (isUnparked w || isParked w) = true → w.cancelled = false := by
-    intro i w hw _
-    have hm : w ∈ d13Start.ws := List.mem_of_getElem? hw
-    simp only [d13Start, List.mem_cons, List.not_mem_nil, or_false] at hm
-    rcases hm with rfl | rfl <;> rfl
-  exact absurd (h d13Start d13End _ hreach hrun (by decide) hnc (by decide)) (by decide)
+  exact absurd (h d13Start d13End _ hreach hrun (by decide) (by decide)) (by decide)
 
-/-- **What does hold of `signal_wakes_min`**: the full statement under the additional hypothesis
-that at most one of the entered waiters has not yet reached the `select` (`nUnparked s ≤ 1`), and
-always for a single `Signal` (`nSignals ls ≤ 1`). Missing for the full statement: nothing that could
-be proved — it is refuted by `signal_wakes_min_false`. -/
-theorem signal_wakes_min_partial (s s' : State) (ls : List Label) (hr : Reach Cfg.gen s) (hrun : run Cfg.gen s ls = some s')
-    (hprog : ∀ l ∈ ls, progressOnly l = true)
-    (hnc : ∀ (i : Nat) (w : Waiter), s.ws[i]? = some w → (isUnparked w || isParked w) = true → w.cancelled = false)
+/-- labels of a run in which other waiters may call `Wait` and enter while the Signals happen, but no
+context ends and no `Broadcast` runs -/
+def entrantOrProgress : Label → Bool
+  | .start _ => true
+  | .release _ => true
+  | l => progressOnly l
+
+/-- the clause restricted to the scope in which D13 cannot occur — at most one entered waiter not yet parked
+and at most one `Signal`, no cancellation at all — but, as in the text, with other waiters entering `Wait`
+while the Signal happens -/
+def SignalWakesMinOneUnparked (cfg : Cfg) : Prop :=
+  ∀ (s s' : State) (ls : List Label), Reach cfg s → run cfg s ls = some s' →
+    (∀ l ∈ ls, entrantOrProgress l = true) →
+    (∀ w ∈ s.ws, w.cancelled = false) →
+    nUnparked s' = 0 → nUnparked s ≤ 1 → nSignals ls ≤ 1 →
+    min (nUnparked s + nParked s) (nSignals ls) ≤ nWokenOfThem s s'
+
+/-- late entrant, the state before the Signal: waiter 0 has released the lock and is not yet parked, waiter 1
+has not called `Wait` -/
+def lateStart : State :=
+  { chans := [{ cap := 1, buf := 0, closed := false }], cur := 0, lock := none,
+    ws := [{ pc := .unlocked (some 0), cancelled := false }, { pc := .idle, cancelled := false }] }
+
+/-- late entrant, the final state: waiter 1 (which entered after the Signal) returned nil holding the lock,
+waiter 0 (for which the token was remembered) is parked, no token is left -/
+def lateEnd : State :=
+  { chans := [{ cap := 1, buf := 0, closed := false }], cur := 0, lock := some 1,
+    ws := [{ pc := .parked 0, cancelled := false }, { pc := .doneNil, cancelled := false }] }
+
+/-- **The clause is false of the code, second way** (same defect family, open known finding "late entrant"):
+one waiter between `c.L.Unlock()` and the `select`, one `Signal` — the token is remembered in the one-slot
+buffer — then another goroutine calls `Wait`, releases the lock, reaches the `select` first and takes the token;
+the waiter that had entered when the Signal was issued parks: k = 1, m = 1, *of them* nobody is woken. This is
+inside `nUnparked ≤ 1`, `m ≤ 1`; it is excluded from `signal_wakes_min_no_entrant_partial` only by
+the hypothesis that no `Wait` call releases the lock during the run. (An unattributed count would be satisfied
+by waiter 1: `nWoken lateEnd − nWoken lateStart = 1`.) -/
+theorem signal_wakes_min_late_entrant_false : ¬ SignalWakesMinOneUnparked Cfg.gen ∧ ¬ SignalWakesMin Cfg.gen := by
+  have hreach : Reach Cfg.gen lateStart := reach_run (ls := [.start 0, .release 0]) (.init 2) (by decide)
+  have hrun : run Cfg.gen lateStart
+      [.signal none, .start 1, .release 1, .arrive 1 .recv, .relock 1, .arrive 0 .park] = some lateEnd := by decide
+  constructor
+  · intro h
+    exact absurd (h lateStart lateEnd _ hreach hrun (by decide) (by decide) (by decide) (by decide) (by decide)) (by decide)
+  · intro h
+    exact absurd (h lateStart lateEnd _ hreach hrun (by decide) (by decide)) (by decide)
+
+example : nWoken lateEnd - nWoken lateStart = 1 ∧ nWokenOfThem lateStart lateEnd = 0 := by decide
+
+/-- **What does hold of `signal_wakes_min`.** Hypotheses, both of them restrictions of the clause:
+* `hprog`: the run consists of `Signal`s, of the progress of waiters that are already inside `Wait` past the
+  lock release (reaching the `select`, re-locking; the lock holder unlocking) and of **contexts ending at any
+  moment** (of any waiter, entered or not, also before the run) — but **no `Wait` call releases the lock during
+  the run** (no late entrant: `signal_wakes_min_late_entrant_false`) and no `Broadcast` runs;
+* `hyp`: at most one entered waiter is not yet parked, or there is at most one `Signal`
+  (otherwise D13: `signal_wakes_min_false`).
+Conclusion, attributed, as in `SignalWakesMin`: of the `k` waiters that had entered, `e` have returned their
+context's error and at least `min (k − e) m` are woken — an expiring `Wait` takes no wake-up with it, whatever the
+timing of the expiry relative to the Signals. (Second conjunct: the same with the unattributed counts.) -/
+theorem signal_wakes_min_no_entrant_partial (s s' : State) (ls : List Label) (hr : Reach Cfg.gen s)
+    (hrun : run Cfg.gen s ls = some s')
+    (hprog : ∀ l ∈ ls, progressOrCancel l = true)
     (hsettled : nUnparked s' = 0)
     (hyp : nUnparked s ≤ 1 ∨ nSignals ls ≤ 1) :
-    min (nUnparked s + nParked s) (nSignals ls) ≤ nWoken s' - nWoken s := by
+    min (nUnparked s + nParked s - nErrOfThem s s') (nSignals ls) ≤ nWokenOfThem s s' ∧
+    min (nUnparked s + nParked s - (nErr s' - nErr s)) (nSignals ls) ≤ nWoken s' - nWoken s := by
   rw [cfg_gen] at *
-  have hR := runinv_run (runinv_init (inv_reach hr) hnc) hrun hprog (by simpa using hyp)
-  exact runinv_final (by simpa using hR) hsettled
+  have hi := inv_reach hr
+  have hR := runinvc_run (runinvc_init hi) hrun hprog (by simpa using hyp)
+  have h1 := runinvc_final (by simpa using hR) hsettled
+  obtain ⟨h2, h3⟩ := quietc_of_them hi hrun hprog
+  exact ⟨by omega, h1⟩
 
 /-- non-vacuity example: two parked waiters and one on its way -/
 def exStart : State :=
@@ -180,10 +324,19 @@ def exEnd : State :=
            { pc := .woken false, cancelled := false }] }
 
 /-- non-vacuity: two parked waiters and one on its way, three Signals, all hypotheses hold -/
-example : ∃ s s' ls, Reach Cfg.gen s ∧ run Cfg.gen s ls = some s' ∧ (∀ l ∈ ls, progressOnly l = true) ∧
-    nUnparked s = 1 ∧ nParked s = 2 ∧ nSignals ls = 3 ∧ nUnparked s' = 0 ∧ nWoken s' - nWoken s = 3 :=
+example : ∃ s s' ls, Reach Cfg.gen s ∧ run Cfg.gen s ls = some s' ∧ (∀ l ∈ ls, progressOrCancel l = true) ∧
+    nUnparked s = 1 ∧ nParked s = 2 ∧ nSignals ls = 3 ∧ nUnparked s' = 0 ∧ nWokenOfThem s s' = 3 :=
   ⟨exStart, exEnd, [.signal (some 0), .signal (some 1), .signal none, .arrive 2 .recv],
     reach_run (ls := [.start 0, .release 0, .arrive 0 .park, .start 1, .release 1, .arrive 1 .park, .start 2, .release 2]) (.init 3) (by decide),
     by decide, by decide, by decide, by decide, by decide, by decide, by decide⟩
+
+/-- non-vacuity with an expiry between the Signals: two parked waiters and one on its way; the first Signal is
+handed to waiter 0, the context of parked waiter 1 ends (it returns the error), the second Signal is remembered
+for waiter 2, which takes it: k = 3, e = 1, m = 2, two of them woken -/
+example : ∃ s s' ls, Reach Cfg.gen s ∧ run Cfg.gen s ls = some s' ∧ (∀ l ∈ ls, progressOrCancel l = true) ∧
+    nUnparked s = 1 ∧ nParked s = 2 ∧ nSignals ls = 2 ∧ nUnparked s' = 0 ∧ nErrOfThem s s' = 1 ∧ nWokenOfThem s s' = 2 :=
+  ⟨exStart, _, [.signal (some 0), .cancel 1, .signal none, .arrive 2 .recv],
+    reach_run (ls := [.start 0, .release 0, .arrive 0 .park, .start 1, .release 1, .arrive 1 .park, .start 2, .release 2]) (.init 3) (by decide),
+    rfl, by decide, by decide, by decide, by decide, by decide, by decide, by decide⟩
 
 end Juniper.Props.C16
